@@ -93,3 +93,14 @@ plan("C09", "exploration",
      assumptions=["reference rank/product from carry-less GF(2^8)/0x11D arithmetic",
                   "a k x k survivor matrix of [I;P] is regular iff the minor (erased data columns x chosen parity rows) of P is regular",
                   "documented RS exponent convention is parsed from include/erasure_code.h"])
+
+plan("C16", "exploration",
+     "Exhaustive: every dependency-closed assignment of the 23 examined CPUID.1:ECX / CPUID.7.0:EBX,ECX / XCR0 bits, the real resolver of each of the 42 entry points executed with "
+     "CPUID/XGETBV intercepted; ISA classes required by the selected symbol and everything it reaches (recursive-descent disassembly of the freshly built binary) must be offered; "
+     "portable fallback when no SSE4.x set is enabled; one cross-unit functional workload per distinct selected tuple compared with the portable tuple. Informational sweep with "
+     "weak closure (free SSE3/SSSE3/Avoton) recorded only. Non-trivial: configuration other than base/host.",
+     lambda tier: [S("C16", 1600 if tier == "quick" else 60000)],
+     exhaustive=True,
+     assumptions=["ISA needs come from disassembly (objdump) classified by encoding (legacy/VEX/EVEX+length) and mnemonic; unknown legacy mnemonics are baseline",
+                  "strong dependency closure: SSE4.2->SSE4.1, AVX->SSE4.2, AVX2->AVX, AVX512F->AVX2, {DQ,CD,BW,VL,VNNI,VPOPCNTDQ}->F, {VBMI2,BITALG}->BW, {VAES,VPCLMULQDQ}->AVX, XCR0 rules",
+                  "SSE3/SSSE3 are tied to SSE4.1 and the CPU signature is non-Avoton in the enforced space"])
